@@ -44,10 +44,10 @@ def plans(pid, tier):
     th = tier == "thorough"
     P = []
     if pid == "C01":
-        P.append(dict(tag="fat", groups=G7, shapes="{Square, Kite, Circle, Trimer(5, 15)}",
+        P.append(dict(tag="fat", groups=G7, shapes="{Square, Kite, Circle, Trimer(5, 15), Trimer(2, 5)}",
                       ax=[16, 20, 28, 40] + ([24, 34] if th else []),
                       b=[(0, 14), (0, 20), (0, 28), (9, 12), (12, 16), (6, 8)] + ([(0, 10), (15, 20), (5, 12)] if th else []),
-                      site=[-4, -1, 0, 2] + ([-3, 1, 3, 4] if th else []), orient=[1, 5] + ([2, 6, 13] if th else []),
+                      site=[-4, -1, 2] + ([-3, 0, 1, 3, 4] if th else []), orient=[1, 5] + ([2, 6, 13] if th else []),
                       invs=["ModelOK", "Emit"]))
         # thin molecules in thin sheared cells: the region in which a fixed shell count fails
         P.append(dict(tag="thin", groups=["p1", "p2"] if th else ["p1"], shapes="{Trimer(1, 200)}" if not th else "ThinShapes",
@@ -318,7 +318,36 @@ def pairs_check(ctx):
                      "tlc_wall_s": round(r["wall"], 1)})
     if emitted == 0:
         return 2
-    coverage = {"states": states, "transitions": transitions, "traces_validated_against_impl": emitted,
+    # shapes and placements off every rational grid: recorded pairs judged by PairsJudge.tla
+    jd = os.path.join(vp.WORK, "C12_judge")
+    os.makedirs(jd, exist_ok=True)
+    obs = os.path.join(jd, "pairs.ndjson")
+    vp.pvh(["pairs-obs", "--out", obs, "--tier", tier, "--seed", str(seed)], timeout=3000)
+    jcfg = "SPECIFICATION Spec\nINVARIANTS C12Judge EmitVerdict\nPOSTCONDITION Accepted\nCHECK_DEADLOCK FALSE\n"
+    jr = vp.run_tlc("PairsJudge", jcfg, "C12_judge_tlc", env={"TRACE": obs}, workers=1, timeout=3000, xmx="4g")
+    if jr.get("error") and not jr["violations"]:
+        vp.log("TOOL-ERROR: PairsJudge:", jr["error"], jr["text_tail"][-1200:])
+        return 2
+    judged = {"overlap": 0, "apart": 0, "undecided": 0}
+    with open(jr["out"], errors="replace") as fh:
+        for line in fh:
+            if line.startswith('<<"VERDICT"'):
+                for k in judged:
+                    if '"%s"' % k in line:
+                        judged[k] += 1
+    obs_lines = open(obs).read().splitlines()
+    if jr["violations"]:
+        bad = json.loads(obs_lines[min(jr["depth"], len(obs_lines) - 1)])
+        failures.append(("recorded pair (%s, distance %.4f): real answers contradict the exact verdict with margin" % (bad["shape"], bad["d"]), bad))
+    elif jr["not_consumed"]:
+        vp.log("TOOL-ERROR: PairsJudge did not consume the log")
+        return 2
+    states += jr["distinct"]
+    transitions += jr["generated"]
+    samples.append(json.loads(obs_lines[1]))
+    coverage = {"states": states, "transitions": transitions, "traces_validated_against_impl": emitted + len(obs_lines) - 1,
+                "recorded_pairs_judged": {"records": len(obs_lines) - 1, "verdicts": judged,
+                                          "shapes": "regular 3,4,5,6,7,8,12-gons, three radial polygons, circle, five trimers incl. the CLI default; random orientations, mirror images, distances bracketing the implementation's own contact distance"},
                 "samples": samples, "replayed_states": emitted, "asserted_on": tally["nontrivial"],
                 "verdicts": tally, "enumerations": runs, "exhaustive": True,
                 "rule": "every grid configuration of two copies (offsets, 3-4-5 / 5-12-13 orientations, mirror images) is replayed; "
